@@ -6,6 +6,7 @@ package main
 
 import (
 	"fmt"
+	"sort"
 	"strings"
 	"sync"
 
@@ -318,6 +319,74 @@ func c01BigKey(tag string, ws []uint64, i int) string {
 		pc = "pos>=2^10"
 	}
 	return fmt.Sprintf("big/%s/cnt%s/%s/right%d", tag, cls, pc, (i>>6)&1)
+}
+
+// c01SmallInts: ALL 2-word bitmaps with words in 0..40 and all 3-word bitmaps with words in 0..6, built one after
+// the other in one process, in lexicographic order and in orders that put arithmetically similar bitmaps next to
+// each other (sorted by 31*w0+w1.., by the sum, by the xor): a cache keyed by a checksum / hash / sum of the words
+// instead of the words meets two different bitmaps with the same key back to back
+func c01SmallInts(g *Gen) {
+	var two, three [][]uint64
+	for a := uint64(0); a <= 40; a++ {
+		for b := uint64(0); b <= 40; b++ {
+			two = append(two, []uint64{a, b})
+		}
+	}
+	for a := uint64(0); a <= 6; a++ {
+		for b := uint64(0); b <= 6; b++ {
+			for c := uint64(0); c <= 6; c++ {
+				three = append(three, []uint64{a, b, c})
+			}
+		}
+	}
+	keys := []struct {
+		name string
+		f    func(ws []uint64) uint64
+	}{
+		{"lex", nil},
+		{"poly31", func(ws []uint64) uint64 {
+			h := uint64(0)
+			for _, w := range ws {
+				h = h*31 + w
+			}
+			return h
+		}},
+		{"sum", func(ws []uint64) uint64 {
+			h := uint64(0)
+			for _, w := range ws {
+				h += w
+			}
+			return h
+		}},
+		{"xor", func(ws []uint64) uint64 {
+			h := uint64(0)
+			for _, w := range ws {
+				h ^= w
+			}
+			return h
+		}},
+	}
+	for _, fam := range [][][]uint64{two, three} {
+		for _, k := range keys {
+			bms := append([][]uint64{}, fam...)
+			if k.f != nil {
+				sort.SliceStable(bms, func(i, j int) bool { return k.f(bms[i]) < k.f(bms[j]) })
+			}
+			for _, f := range []int{2, 1} {
+				var steps []string
+				for _, ws := range bms {
+					var runs []string
+					for _, w := range ws {
+						runs = append(runs, L("1", U(w)))
+					}
+					steps = append(steps, L(Int(f), L(runs...)))
+				}
+				g.Stat("session-small-integers")
+				g.Do("bitmap.IndexRank/session", L(L(steps...), "1"), fmt.Sprintf("smallint/nw%d/%s/f%d", len(fam[0]), k.name, f))
+			}
+		}
+	}
+	g.Exhaust = append(g.Exhaust, "all 2-word bitmaps with words 0..40 and all 3-word bitmaps with words 0..6, indexed consecutively in 4 orders (lexicographic, by 31-polynomial, by sum, by xor) x {IndexRank128+Rank128, IndexRank64 trailing+Rank64}")
 }
 
 func genC01Wide(g *Gen) {
